@@ -1,18 +1,18 @@
 // Shared semantic vocabulary (DESIGN.md 2.4).  Hand-written mirror types of the repository's
 // DomainId / Predicate / PropositionalConjunction / Inconsistency (field-for-field), plus their meaning.
-pub type Asg = Map<int, int>;          // a total assignment: domain id |-> value
+pub type Asg = spec_fn(int) -> int;    // a total assignment: domain id |-> value
 pub type Live = spec_fn(Asg) -> bool;  // the assignments compatible with the current domains
 pub type Model = spec_fn(Asg) -> bool; // the meaning of a constraint / of everything posted so far
 
-#[derive(Clone, Copy, PartialEq, Eq)]
+#[derive(Clone, Copy, PartialEq, Eq, Structural)]
 pub struct DomainId {
     pub id: u32,
 }
 impl DomainId {
-    pub open spec fn val(self, a: Asg) -> int { a[self.id as int] }
+    pub open spec fn val(self, a: Asg) -> int { a(self.id as int) }
 }
 
-#[derive(Clone, Copy, PartialEq, Eq)]
+#[derive(Clone, Copy, PartialEq, Eq, Structural)]
 pub enum Predicate {
     LowerBound {
         domain_id: DomainId,
@@ -34,10 +34,10 @@ pub enum Predicate {
 
 pub open spec fn pred_holds(p: Predicate, a: Asg) -> bool {
     match p {
-        Predicate::LowerBound { domain_id, lower_bound } => a[domain_id.id as int] >= lower_bound,
-        Predicate::UpperBound { domain_id, upper_bound } => a[domain_id.id as int] <= upper_bound,
-        Predicate::NotEqual { domain_id, not_equal_constant } => a[domain_id.id as int] != not_equal_constant,
-        Predicate::Equal { domain_id, equality_constant } => a[domain_id.id as int] == equality_constant,
+        Predicate::LowerBound { domain_id, lower_bound } => a(domain_id.id as int) >= lower_bound,
+        Predicate::UpperBound { domain_id, upper_bound } => a(domain_id.id as int) <= upper_bound,
+        Predicate::NotEqual { domain_id, not_equal_constant } => a(domain_id.id as int) != not_equal_constant,
+        Predicate::Equal { domain_id, equality_constant } => a(domain_id.id as int) == equality_constant,
     }
 }
 
